@@ -373,8 +373,10 @@ func (a *EpochBitmapAllocator) MarshalJSON() ([]byte, error) {
 	a.mu.RLock()
 	defer a.mu.RUnlock()
 
-	ones, bits := a.mask.Size()
-	baseNetwork := fmt.Sprintf("%s/%d", a.baseIP.String(), ones+(bits-a.prefixLength))
+	// The pool network is baseIP/ones: restoring it with the same prefix length must give
+	// the same number of slots (ones+(bits-prefixLength) shrinks the pool when prefixLength < bits)
+	ones, _ := a.mask.Size()
+	baseNetwork := fmt.Sprintf("%s/%d", a.baseIP.String(), ones)
 
 	state := EpochBitmapState{
 		BaseNetwork:    baseNetwork,
